@@ -2,56 +2,73 @@ import CollectionsC.Properties.C06Queue
 import CollectionsC.Properties.C20Deque
 /-! # C20 (queue part) — the adapter inherits the deque's capacity invariants and geometric growth
 
-`enqueue = add_first` on the inner deque; `Queue.Inv` is the inner deque's invariant. -/
+`enqueue = add_first` on the inner deque; `Queue.Inv` is the inner deque's invariant (plus: header and inner
+deque carry the same triple). -/
 namespace CC.Properties.C20Queue
 open CC CC.Properties.C09Queue
 
-/-- **size_le_capacity**, **capacity_pow2**, buffer block ≥ capacity — in every state satisfying the
-invariant, hence (`C06Queue.history_nofault`) in every state any history reaches -/
+/-- **size_le_capacity**, **capacity_pow2**, buffer block = exactly `capacity` slots — in every state
+satisfying the invariant, hence (`C06Queue.history_nofault`) in every state any history reaches -/
 theorem capacity_invariants (q : Queue) (hi : q.Inv) :
-    q.size ≤ q.d.cap ∧ (∃ k, q.d.cap = 2 ^ k ∧ k ≤ 31) ∧ q.d.cap ≤ q.d.buf.length :=
-  ⟨(C20Deque.size_le_capacity q.d hi).1, (C20Deque.capacity_pow2 q.d hi).1, (C20Deque.size_le_capacity q.d hi).2⟩
+    q.size ≤ q.d.cap ∧ (∃ k, q.d.cap = 2 ^ k ∧ k ≤ 31) ∧ q.d.buf.length = q.d.cap :=
+  ⟨(C20Deque.size_le_capacity q.d hi.1).1, (C20Deque.capacity_pow2 q.d hi.1).1, (C20Deque.size_le_capacity q.d hi.1).2⟩
 
 theorem reachable_invariants (ops : List Op) (q : Queue) (m : Mem) (hi : q.Inv) :
     (runQ q m ops).2.1.size ≤ (runQ q m ops).2.1.d.cap ∧ ∃ k, (runQ q m ops).2.1.d.cap = 2 ^ k := by
   obtain ⟨hinv, _, _⟩ := C06Queue.history_nofault ops q m hi
-  exact ⟨(C20Deque.size_le_capacity _ hinv).1, Deque.Inv.pow2 hinv⟩
+  exact ⟨(C20Deque.size_le_capacity _ hinv.1).1, Deque.Inv.pow2 hinv.1⟩
 
 /-- **growth_strict / enqueue never fails for lack of room**: with an allocator that does not refuse and
 below the capacity limit `enqueue` returns `CC_OK`; the capacity is kept, or exactly doubled when the
 ring was full -/
-theorem enqueue_ok (q : Queue) (x : Nat) (m : Mem) (hi : q.Inv) (hs : m.sched = []) (hb : q.size < Gen.MAX_POW_TWO) :
+theorem enqueue_ok (q : Queue) (x : Nat) (m : Mem) (hi : q.Inv) (hs : Deque.neverRefuses q.triple m)
+    (hb : q.size < Gen.MAX_POW_TWO) :
     (q.enqueue x m).1 = .ok ∧ (q.enqueue x m).2.1.d.cap = (if q.d.size = q.d.cap then 2 * q.d.cap else q.d.cap) ∧
     (q.enqueue x m).2.1.Inv := by
-  obtain ⟨_, a2, _, a4⟩ := C20Deque.append_ok q.d x m hi hs hb
-  rcases Deque.addFirst_spec q.d x m hi with ⟨_, b2, _⟩ | ⟨b1, _⟩
-  · exact ⟨a2, a4, b2⟩
+  obtain ⟨_, a2, _, a4⟩ := C20Deque.append_ok q.d x m hi.1 (by rw [hi.2]; exact hs) hb
+  rcases Deque.addFirst_spec q.d x m hi.1 with ⟨_, b2, _⟩ | ⟨b1, _⟩
+  · exact ⟨a2, a4, ⟨b2, (Deque.addFirst_triple q.d x m).trans hi.2⟩⟩
   · rw [b1] at a2; exact absurd a2 (by decide)
 
-/-- a run of enqueues as a run of insertions at the front of the inner deque -/
+/-- a run of enqueues as a run of insertions at the front of the inner deque (a refused one changes nothing
+and the run goes on) -/
 def enqueueAll (q : Queue) (m : Mem) (xs : List Nat) : Queue × Mem :=
-  (⟨(Deque.pushAll q.d m (xs.map fun x => (true, x))).1⟩, (Deque.pushAll q.d m (xs.map fun x => (true, x))).2)
+  ({ q with d := (Deque.pushAll q.d m (xs.map fun x => (true, x))).1 }, (Deque.pushAll q.d m (xs.map fun x => (true, x))).2)
 
 /-- `enqueueAll` is what `n` calls of `cc_queue_enqueue` do -/
 theorem enqueueAll_cons (q : Queue) (m : Mem) (x : Nat) (xs : List Nat) :
     enqueueAll q m (x :: xs) = enqueueAll (q.enqueue x m).2.1 (q.enqueue x m).2.2 xs := by
   simp [enqueueAll, Deque.pushAll, Deque.pushEnd, Queue.enqueue]
 
-/-- **appends_realloc_log**: `n` enqueues into a queue holding `size` elements perform at most
-`log2 (size + n) + 1` buffer allocations (the count is exactly that of the abstract doubling process),
-whatever the initial capacity and ring position -/
-theorem appends_realloc_log (xs : List Nat) (q : Queue) (m : Mem) (hi : q.Inv) (hs : m.sched = [])
-    (hb : q.size + xs.length ≤ Gen.MAX_POW_TWO) :
-    (enqueueAll q m xs).2.nalloc - m.nalloc = (Growth.appends Deque.dbl q.size q.d.cap xs.length).reallocs ∧
-    (enqueueAll q m xs).2.nalloc - m.nalloc ≤ Nat.log2 (q.size + xs.length) + 1 ∧
-    (enqueueAll q m xs).1.Inv ∧ (enqueueAll q m xs).1.size = q.size + xs.length := by
+/-- **appends_realloc_log, every refusal schedule**: `n` enqueues into a queue holding `size` elements
+perform at most `log2 (size + n) + 1` successful buffer allocations (on the queue's triple), whatever the
+initial capacity, the ring position and the pattern of refusals -/
+theorem appends_realloc_log (xs : List Nat) (q : Queue) (m : Mem) (hi : q.Inv) :
+    Deque.allocsOf q.triple (enqueueAll q m xs).2 - Deque.allocsOf q.triple m ≤ Nat.log2 (q.size + xs.length) + 1 ∧
+    (enqueueAll q m xs).1.Inv := by
   have hl : (xs.map fun x => ((true : Bool), x)).length = xs.length := by simp
-  obtain ⟨r1, r2, r3, _, r5⟩ := C20Deque.appends_realloc_log (xs.map fun x => (true, x)) q.d m hi hs
-    (by rw [hl]; exact hb)
-  obtain ⟨_, _, g3, _⟩ := Deque.pushAll_growth (xs.map fun x => (true, x)) q.d m hi hs (by rw [hl]; exact hb)
-  rw [hl] at r2 r3 g3
+  obtain ⟨r1, r2, _⟩ := C20Deque.appends_realloc_log (xs.map fun x => (true, x)) q.d m hi.1
+  obtain ⟨_, d2, _⟩ := Deque.pushAll_doubling (xs.map fun x => (true, x)) q.d m hi.1
+  rw [hl, hi.2] at r1
+  exact ⟨r1, ⟨r2, d2.trans hi.2⟩⟩
+
+/-- and exactly the abstract doubling process when nothing is refused -/
+theorem appends_is_growth_process (xs : List Nat) (q : Queue) (m : Mem) (hi : q.Inv)
+    (hn : Deque.neverRefuses q.triple m) (hb : q.size + xs.length ≤ Gen.MAX_POW_TWO) :
+    Deque.allocsOf q.triple (enqueueAll q m xs).2 =
+      Deque.allocsOf q.triple m + (Growth.appends Deque.dbl q.size q.d.cap xs.length).reallocs ∧
+    (enqueueAll q m xs).1.size = q.size + xs.length := by
+  have hl : (xs.map fun x => ((true : Bool), x)).length = xs.length := by simp
+  obtain ⟨_, _, g3, _, g5⟩ := Deque.pushAll_growth (xs.map fun x => (true, x)) q.d m hi.1
+    (by rw [hi.2]; exact hn) (by rw [hl]; exact hb)
+  rw [hl] at g3 g5
+  rw [hi.2] at g5
   have hsz := (Growth.appends_spec Deque.dbl (fun c => Nat.le_refl _) xs.length q.d.size q.d.cap
-    hi.2.2.2.2.2 (Deque.Inv.cap_pos hi)).1
-  exact ⟨r2, r3, r5, by simp only [enqueueAll, Queue.size]; rw [g3, hsz]⟩
+    hi.1.2.2.2.2.2 (Deque.Inv.cap_pos hi.1)).1
+  exact ⟨g5, by simp only [enqueueAll, Queue.size]; rw [g3, hsz]⟩
+
+/-- non-vacuity: five enqueues into a capacity-1 queue cost three buffer allocations (1→2→4→8) -/
+example : (enqueueAll ⟨Deque.mk 0 1 0 0 [0] .conf, .conf⟩ { live := 3 } [1, 2, 3, 4, 5]).2.nalloc = 3 ∧
+    (enqueueAll ⟨Deque.mk 0 1 0 0 [0] .conf, .conf⟩ { live := 3 } [1, 2, 3, 4, 5]).1.d.cap = 8 := by decide
 
 end CC.Properties.C20Queue
